@@ -106,7 +106,7 @@ func init() {
 		gs := "(Array Int Int)"
 		g := e.heapGet(s, "GH!consumed", gs)
 		e.heapSet(s, "GH!consumed", gs, app("store", g, rd.L[0], app("+", app("select", g, rd.L[0]), n)))
-		e.event(s, Event{Kind: "call", What: "io.ReadFull", Args: args, Pos: e.P.Pos(in.Pos()), Instr: in, Blocking: true, Extra: map[string]string{"io": "1"}})
+		e.event(s, Event{Kind: "call", What: "io.ReadFull", Args: args, ArgTypes: e.argTypesFor(args), Pos: e.P.Pos(in.Pos()), Instr: in, Blocking: true, Extra: map[string]string{"io": "1"}})
 		return &Val{Tup: []*Val{{L: []string{n}}, {L: []string{er}}}, L: []string{n, er}}
 	})
 	// ---- locks ----
@@ -145,7 +145,7 @@ func init() {
 			n := amount(e, s, c, args)
 			g := e.heapGet(s, "GH!buflen", "(Array Int Int)")
 			e.heapSet(s, "GH!buflen", "(Array Int Int)", app("store", g, b, app("+", app("select", g, b), n)))
-			e.event(s, Event{Kind: "call", What: key, Args: args, Pos: e.P.Pos(in.Pos()), Instr: in})
+			e.event(s, Event{Kind: "call", What: key, Args: args, ArgTypes: e.argTypesFor(args), Pos: e.P.Pos(in.Pos()), Instr: in})
 			return result(n)
 		})
 	}
